@@ -159,6 +159,11 @@ def h_step(P, kinds, shape, props, L=2, hibernation=False, generations=2, mech="
         if awake:
             P.oblige("C18.progress.some_deme_awake", len(w.log.entries) > w.pre_log)
 
+    if "C01" in props:
+        lo, hi = w.bounds[:, 0], w.bounds[:, 1]
+        P.oblige("C01.every_evaluated_point_in_box", all(all(lo[j] <= x[j] <= hi[j] for j in range(len(lo))) for (_, _, x, _) in w.log.entries))
+        P.oblige("C01.every_stored_genome_and_seed_in_box", all(bool(np.all(i.genome >= lo) and np.all(i.genome <= hi)) for _, d in tree.all_demes for g in d.history for i in g)
+                 and all(d._sprout_seed is None or bool(np.all(d._sprout_seed.genome >= lo) and np.all(d._sprout_seed.genome <= hi)) for _, d in tree.all_demes))
     # =========================== C09 (centroids are current)
     if "C09" in props:
         for lvl, d in tree.all_demes:
